@@ -30,6 +30,9 @@ type ahStream struct {
 	// callbacks (called without s.mu held)
 	onFrame func(m *net.Message)
 	onClose func()
+	// onBytes, when set, receives the raw bytes of every Write instead of parsed frames (frames
+	// that net.Message.Read itself refuses, e.g. oversized ones, can only be relayed this way)
+	onBytes func(b []byte)
 	// idle is true while a Read call is blocked on an empty buffer
 	idle bool
 	// write gate: when set, the next Write blocks until the gate is closed (forced schedules)
@@ -96,6 +99,11 @@ func (s *ahStream) Write(p []byte) (int, error) {
 			time.Sleep(d)
 		}
 		return 0, errAhClosed
+	}
+	if rb := s.onBytes; rb != nil {
+		s.mu.Unlock()
+		rb(append([]byte(nil), p...))
+		return len(p), nil
 	}
 	s.wbuf = append(s.wbuf, p...)
 	var msgs []*net.Message
